@@ -108,29 +108,27 @@ class Position(NamedTuple):
             A tuple (line_number, column_number), both 1-based.
         """
         lines = self.text.splitlines(keepends=True)
-        cumulative_length = 0
-        target_line_index = -1
+        line_start = 0
 
         for i, line in enumerate(lines):
-            cumulative_length += len(line)
-            if self.pos < cumulative_length:
-                target_line_index = i
-                break
+            if self.pos < line_start + len(line):
+                return i + 1, self.pos - line_start + 1
+            line_start += len(line)
 
-        if target_line_index == -1:
-            return len(lines) + 1, 1
+        # `self.pos` is at the end of `self.text`.
+        if lines and lines[-1].splitlines()[0] == lines[-1]:
+            # The last line is not terminated by a line break.
+            line_start -= len(lines[-1])
+            return len(lines), self.pos - line_start + 1
 
-        # 1-based
-        line_number = target_line_index + 1
-        column_number = (
-            self.pos - (cumulative_length - len(lines[target_line_index])) + 1
-        )
-        return line_number, column_number
+        # An empty line after the last line break, or empty text.
+        return len(lines) + 1, self.pos - line_start + 1
 
     def line_of(self) -> str:
         """Return the line of text that contains this position."""
         line_number, _ = self.line_col()
-        return self.text[line_number - 1]
+        lines = self.text.splitlines(keepends=True)
+        return lines[line_number - 1] if line_number <= len(lines) else ""
 
 
 class Pair:
